@@ -384,6 +384,24 @@ theorem survivors_are_the_valid_rows (T : ScopeTable) (S : Schema) (P : Frame)
   · rintro ⟨h1, h2⟩
     exact ⟨h1, fun e he c hc hp => h2 ⟨e, he, c, hc, hp⟩⟩
 
+/-- **C11, end to end** for a schema whose schema-level part conforms, without parsing errors: when the
+core checks find violations and all of them are attributable to rows, `validate(lazy=True)` with
+`drop_invalid_rows` returns the parsed frame restricted — in the original order — to exactly the rows
+that violate no row-level constraint of a column, of the joint uniqueness declaration or of the index -/
+theorem drop_invalid_rows_exact (T : ScopeTable) (S : Schema) (D P : Frame)
+    (hparse : parseFrame S D = .ok P []) (hso : strictOrderedErrors S D = []) (hdrop : S.dropInvalid = true)
+    (h : RowLevelOnly S P)
+    (hne : coreCheckErrors T .schemaAndData S P ≠ [])
+    (hrows : ∀ e ∈ coreCheckErrors T .schemaAndData S P, e.cells ≠ []) :
+    validateLazy T .schemaAndData S D
+        = .ok (dropRows P (failingRows (coreCheckErrors T .schemaAndData S P)))
+      ∧ ∀ i, i ∈ keptPositions P.nrows (failingRows (coreCheckErrors T .schemaAndData S P))
+          ↔ i < P.nrows ∧ ¬ frameRowBad S P i := by
+  refine ⟨?_, survivors_are_the_valid_rows T S P h⟩
+  have := drop_returns_unnamed_rows T .schemaAndData S D P [] hparse hdrop
+    (by simpa [hso] using hne) (by simpa [hso] using hrows)
+  simpa [hso] using this
+
 /-- the hypotheses of the frame theorems are satisfiable by a frame with violations of every kind -/
 example : RowLevelOnly
     { columns := [{ name := some "a", dtype := some .float64, unique := true, checks := [{ b := .gt (.flt 0) }] }],
